@@ -9,7 +9,7 @@
 From Coq Require Import List ZArith NArith Bool.
 From GrolGen Require Import Gen_Consts Gen_Prec.
 From GrolModel Require Import Ast RefValues RefEval.
-From GrolProofs Require Import RefEval_proofs.
+From GrolProofs Require Import RefEval_proofs RefEval_frame.
 Import ListNotations.
 Open Scope Z_scope.
 
@@ -115,6 +115,104 @@ Theorem C01_prec_table_is_reference :
   /\ strictly_increasing ref_levels = true.
 Proof. exact (conj prec_table_is_reference (proj2 prec_table_frozen)). Qed.
 
+(* frame discipline, for EVERY task, state and amount of fuel: an evaluation that ends (value, return / break /
+   continue signal or language error) is back in the frame it started in - whatever calls, closures, loops and
+   errors happened inside; no environment is ever removed or re-parented (the scope chain a closure captured is
+   immutable: only stores change); closure ids only grow; and the printed text is append-only *)
+Theorem C01_frame_discipline : forall (n : nat) (t : task) (st st' : state) (o : outcome),
+  run n t st = (o, st') ->
+  (ended o -> cur st' = cur st)
+  /\ (length (heap st) <= length (heap st'))%nat
+  /\ (forall i e, nth_error (heap st) i = Some e ->
+        exists e', nth_error (heap st') i = Some e' /\ eouter e' = eouter e /\ efun e' = efun e)
+  /\ (nextfid st <= nextfid st')%nat
+  /\ (exists more, printed st' = printed st ++ more).
+Proof. exact frame_discipline. Qed.
+
+Theorem C01_program_ends_at_root : forall (n : nat) (p : node) (o : outcome) (st : state),
+  eval_program n p = (o, st) -> ended o -> cur st = 0%nat /\ (length (heap st) >= 1)%nat.
+Proof. exact program_ends_at_root. Qed.
+
+(* left-to-right evaluation: the right operand runs in the state the left operand left, and the operator is
+   applied to the VALUE the left operand had (whatever the right operand did to the variables since) *)
+Theorem C01_infix_left_to_right : forall (f : nat) (t : tok) (l r : node) (st s1 s2 : state) (a b : value),
+  run f (TNode l) st = (OVal a, s1) ->
+  run f (TNode r) s1 = (OVal b, s2) ->
+  plain_infix t a r = true ->
+  run (S f) (TNode (NInfix t (Some l) (Some r))) st = (infix_op (ttype t) a b, s2).
+Proof. exact infix_left_to_right. Qed.
+
+(* error short-circuit: an error in the left operand is the result and the right operand is not evaluated; an
+   error in the right operand is the result; the first statement of a block that does not end in a plain value
+   (error, return, break, continue) ends the block, otherwise the block goes on with the next statement *)
+Theorem C01_infix_left_error : forall (f : nat) (t : tok) (l r : node) (st s1 : state) (e : option bytes),
+  run f (TNode l) st = (OErr e, s1) ->
+  (tk t token_ASSIGN || tk t token_DEFINE) = false ->
+  run (S f) (TNode (NInfix t (Some l) (Some r))) st = (OErr e, s1).
+Proof. exact infix_left_error. Qed.
+
+Theorem C01_infix_right_error : forall (f : nat) (t : tok) (l r : node) (st s1 s2 : state) (a : value) (e : option bytes),
+  run f (TNode l) st = (OVal a, s1) ->
+  run f (TNode r) s1 = (OErr e, s2) ->
+  plain_infix t a r = true ->
+  run (S f) (TNode (NInfix t (Some l) (Some r))) st = (OErr e, s2).
+Proof. exact infix_right_error. Qed.
+
+Theorem C01_stmts_stop_at_first_non_value : forall (f : nat) (n : node) (rest : list (option node))
+    (last : value) (st st' : state) (o : outcome),
+  is_comment n = false ->
+  run f (TNode n) st = (o, st') ->
+  (forall v, o <> OVal v) ->
+  eval_stmts (run f) (Some n :: rest) last st = (o, st').
+Proof. exact stmts_stop_at_first_non_value. Qed.
+
+Theorem C01_stmts_continue_after_value : forall (f : nat) (n : node) (rest : list (option node))
+    (last v : value) (st st' : state),
+  is_comment n = false ->
+  run f (TNode n) st = (OVal v, st') ->
+  eval_stmts (run f) (Some n :: rest) last st = eval_stmts (run f) rest v st'.
+Proof. exact stmts_continue_after_value. Qed.
+
+(* loop control, for the condition form, the counted / range forms and the list form: one execution of the body is
+   followed by [after_body] - a value becomes the loop's result and the loop goes on, continue goes on with the
+   result unchanged, break ends the loop with the result so far, return / error leave the loop as they are *)
+Theorem C01_while_iteration : forall (f : nat) (c b : node) (last : value) (st s1 s2 : state) (ob : outcome),
+  run f (TNode c) st = (OVal (VBool true), s1) ->
+  run f (TNode b) s1 = (ob, s2) ->
+  run (S f) (TWhile c b last) st = after_body ob last (fun x => run f (TWhile c b x)) s2.
+Proof. exact while_iteration. Qed.
+
+Theorem C01_while_exit : forall (f : nat) (c b : node) (last v : value) (st s1 : state),
+  run f (TNode c) st = (OVal v, s1) -> v = VBool false \/ v = VNil ->
+  run (S f) (TWhile c b last) st = (OVal last, s1).
+Proof. exact while_exit. Qed.
+
+Theorem C01_forint_iteration : forall (f : nat) (name : option bytes) (i stop : Z) (b : node) (last : value)
+    (st s1 s2 : state) (ob : outcome),
+  i < stop ->
+  (match name with Some x => set_ignore x (VInt i) | None => retv VNil end) st = (OVal VNil, s1) ->
+  run f (TNode b) s1 = (ob, s2) ->
+  run (S f) (TForInt name i stop b last) st
+  = after_body ob last (fun x => run f (TForInt name (i + 1) stop b x)) s2.
+Proof. exact forint_iteration. Qed.
+
+Theorem C01_forint_exit : forall (f : nat) (name : option bytes) (i stop : Z) (b : node) (last : value) (st : state),
+  stop <= i -> run (S f) (TForInt name i stop b last) st = (OVal last, st).
+Proof. exact forint_exit. Qed.
+
+Theorem C01_forlist_iteration : forall (ev : task -> M) (name : bytes) (x : value) (r : list value) (b : node)
+    (last : value) (st s1 s2 : state) (ob : outcome),
+  set_ignore name x st = (OVal VNil, s1) ->
+  ev (TNode b) s1 = (ob, s2) ->
+  for_list ev name (x :: r) b last st = after_body ob last (fun v => for_list ev name r b v) s2.
+Proof. exact forlist_iteration. Qed.
+
+(* return, break and continue never cross a function boundary: the outcome of a call is a value, a language
+   error or an abort, whatever the body did *)
+Theorem C01_call_never_signals : forall (ev : task -> M) (fn : value) (args : list value) (st st' : state) (o : outcome),
+  call_fun ev fn args st = (o, st') -> ~ is_signal o.
+Proof. exact call_never_signals. Qed.
+
 (* ---- non-vacuity: the hypotheses are satisfiable and the evaluator computes ---- *)
 Definition tI (z : Z) : node := NInt (mkTok token_INT []) z.
 Definition tB (b : bool) : node := NBool (mkTok (if b then token_TRUE else token_FALSE) []) b.
@@ -167,6 +265,57 @@ Example C01_ex_runes :
   /\ runes [240; 159; 152; 128]%N = [[240; 159; 152; 128]]%N.
 Proof. vm_compute. repeat split. Qed.
 
+(* func f(n) { n + (n = 5) }; f(1) is 6 (left operand read first), n is 5 afterwards; the call made one new
+   environment (parented on the root), the program is back in frame 0 and printed "6" *)
+Definition asg (a b : node) : node := NInfix (mkTok token_ASSIGN []) (Some a) (Some b).
+Definition fn1 (name param : N) (body : node) : node :=
+  NFunc (mkTok token_FUNC []) (Some (mkTok token_IDENT [name])) (Some [Some (idn param)]) (Some (NStmts [Some body])) false false.
+Definition call1 (f : N) (a : node) : node := NCall (mkTok token_LPAREN []) (Some (idn f)) (Some [Some a]).
+
+Example C01_ex_left_to_right_and_frames :
+  let prog := NStmts [Some (fn1 102 110 (bin token_PLUS (idn 110) (asg (idn 110) (tI 5))));
+                      Some (pr (call1 102 (tI 1)))] in
+  let r := eval_program 20 prog in
+  fst r = OVal VNil /\ printed (snd r) = [54%N] /\ cur (snd r) = 0%nat /\ length (heap (snd r)) = 2%nat
+  /\ (exists e, nth_error (heap (snd r)) 1 = Some e /\ eouter e = Some 0%nat /\ store_get (estore e) [110%N] = Some (VInt 5))
+  /\ plain_infix (mkTok token_PLUS []) (VInt 1) (asg (idn 110) (tI 5)) = true
+  (* 1/0 + print(1): the error of the left operand is the result, nothing is printed *)
+  /\ eval_program 20 (NStmts [Some (bin token_PLUS (bin token_SLASH (tI 1) (tI 0)) (pr (tI 1)))]) = (OErr None, init_state)
+  (* 1/0 ; print(1): the block stops at the error *)
+  /\ eval_program 20 (NStmts [Some (bin token_SLASH (tI 1) (tI 0)); Some (pr (tI 1))]) = (OErr None, init_state).
+Proof. vm_compute. repeat split. eexists; repeat split. Qed.
+
+(* for 3 { print(1); break }: one iteration, the loop's value is nil; for 2 { print(1); continue; print(2) } prints 11;
+   func f(n) { for 9 { return n } }; f(7) is 7 (the return leaves the loop and stops at the call); a break inside a
+   function called from a loop does not end the caller's loop: it is an error *)
+Definition ctl (ty : Z) : node := NControl (mkTok ty []).
+Definition forn (c : node) (body : list node) : node :=
+  NFor (mkTok token_FOR []) (Some c) (Some (NStmts (map Some body))).
+Definition retn (a : node) : node := NReturn (mkTok token_RETURN []) (Some a).
+
+Example C01_ex_loop_control :
+  (let r := eval_program 20 (NStmts [Some (forn (tI 3) [pr (tI 1); ctl token_BREAK])]) in
+   fst r = OVal VNil /\ printed (snd r) = [49%N])
+  /\ (let r := eval_program 20 (NStmts [Some (forn (tI 2) [pr (tI 1); ctl token_CONTINUE; pr (tI 2)])]) in
+      fst r = OVal VNil /\ printed (snd r) = [49; 49]%N)
+  /\ fst (eval_program 20 (NStmts [Some (fn1 102 110 (forn (tI 9) [retn (idn 110)])); Some (call1 102 (tI 7))])) = OVal (VInt 7)
+  /\ fst (eval_program 20 (NStmts [Some (fn1 102 110 (ctl token_BREAK)); Some (forn (tI 2) [call1 102 (tI 7)])])) = OErr None
+  /\ after_body OBrk (VInt 3) (fun _ => unk) init_state = (OVal (VInt 3), init_state).
+Proof. vm_compute. repeat split. Qed.
+
+Print Assumptions C01_while_iteration.
+Print Assumptions C01_while_exit.
+Print Assumptions C01_forint_iteration.
+Print Assumptions C01_forint_exit.
+Print Assumptions C01_forlist_iteration.
+Print Assumptions C01_call_never_signals.
+Print Assumptions C01_frame_discipline.
+Print Assumptions C01_program_ends_at_root.
+Print Assumptions C01_infix_left_to_right.
+Print Assumptions C01_infix_left_error.
+Print Assumptions C01_infix_right_error.
+Print Assumptions C01_stmts_stop_at_first_non_value.
+Print Assumptions C01_stmts_continue_after_value.
 Print Assumptions C01_eval_fuel_monotone.
 Print Assumptions C01_runes_ascii.
 Print Assumptions C01_eval_fuel_independent.
